@@ -346,7 +346,15 @@ impl Run {
                     denoms.sort();
                     denoms.dedup();
                     for d in denoms {
-                        let sel: Vec<u64> = mine.iter().filter(|x| x.1 == d).map(|x| x.0).collect();
+                        let mut sel: Vec<u64> = mine.iter().filter(|x| x.1 == d).map(|x| x.0).collect();
+                        // a slip: one packet named a second time, other packets in between (or right next to it)
+                        if sel.len() >= 3 {
+                            if sc.cfg.salt % 2 == 0 {
+                                sel.push(sel[0]);
+                            } else {
+                                sel.insert(1, sel[0]);
+                            }
+                        }
                         self.step(sc.recover(&sc.admin, Some(true), Some(sel), r_arg));
                     }
                 }
